@@ -275,6 +275,9 @@ def proof_gate(prop_id, proof_files):
         return res
     thms = [m.group(2) for m in STMT.finditer(open(pf).read()) if m.group(1) == "Theorem"]
     res["theorems"] = thms
+    if not thms:
+        res["ok"] = False
+        res["failures"].append("props/%s.v states no Theorem" % prop_id)
     printed = re.findall(r"Print Assumptions (\w+)\.", open(pf).read())
     for t in thms:
         if t not in printed:
